@@ -107,6 +107,20 @@ theorem okFrom_set_last : ∀ (init : Pattern) (f : Bool) (last : PatComp) (lit 
       List.append_eq_nil_iff, List.cons_ne_self, and_false, or_false] at h ⊢
     exact ⟨h.1, okFrom_set_last init false last lit h.2⟩
 
+/-- the LAST component may be turned into a wildcard component -/
+theorem okFrom_set_last_wild : ∀ (init : Pattern) (f : Bool) (last : PatComp),
+    okFrom f (init ++ [last]) = true → okFrom f (init ++ [⟨true, last.literal⟩]) = true
+  | [], f, last, h => by
+    simp only [List.nil_append, okFrom, Bool.and_eq_true, Bool.or_eq_true] at h ⊢
+    exact ⟨⟨.inr trivial, h.1.2⟩, h.2⟩
+  | c :: init, f, last, h => by
+    simp only [List.cons_append, okFrom, Bool.and_eq_true, Bool.or_eq_true, Bool.not_eq_true', List.isEmpty_iff,
+      List.append_eq_nil_iff, List.cons_ne_self, and_false, or_false] at h ⊢
+    exact ⟨h.1, okFrom_set_last_wild init false last h.2⟩
+
+theorem litUtf8OK_set_wild (c : PatComp) (h : litUtf8OK c = true) : litUtf8OK ⟨true, c.literal⟩ = true := by
+  simpa [litUtf8OK] using h
+
 /-- a wildcard component may follow a component with a non-empty literal -/
 theorem okFrom_snoc_wild : ∀ (init : Pattern) (f : Bool) (last : PatComp), last.literal.isEmpty = false →
     okFrom f (init ++ [last]) = true → okFrom f (init ++ [last] ++ [⟨true, []⟩]) = true
@@ -144,16 +158,21 @@ theorem accOK_lit (acc : Pattern) (s : List Char) (h : AccOK acc) :
 theorem accOK_wild (acc : Pattern) (h : AccOK acc) :
     AccOK (match acc.reverse with
       | [] => [⟨true, []⟩]
-      | last :: _ => if last.literal.isEmpty then acc else acc ++ [⟨true, []⟩]) := by
+      | last :: revInit => if last.literal.isEmpty then (⟨true, last.literal⟩ :: revInit).reverse else acc ++ [⟨true, []⟩]) := by
   rcases List.eq_nil_or_concat acc with rfl | ⟨init, last, rfl⟩
   · right
     simp [patOK, patTailOK, litUtf8OK_wild]
   · rcases h with h | h
     · simp at h
     · rw [List.concat_eq_append] at h ⊢
-      simp only [List.reverse_append, List.reverse_cons, List.reverse_nil, List.nil_append, List.singleton_append]
+      simp only [List.reverse_append, List.reverse_cons, List.reverse_nil, List.nil_append, List.singleton_append,
+        List.reverse_reverse]
       split
-      · exact .inr h
+      · right
+        rw [patOK_iff_okFrom] at h ⊢
+        refine ⟨by simp, okFrom_set_last_wild init true last h.2.1, ?_⟩
+        simp only [List.all_append, List.all_cons, List.all_nil, Bool.and_true, Bool.and_eq_true] at h ⊢
+        exact ⟨h.2.2.1, litUtf8OK_set_wild last h.2.2.2⟩
       · rename_i hne
         right
         rw [patOK_iff_okFrom] at h ⊢
@@ -170,7 +189,7 @@ theorem newPattern_lit (s : List Char) (rest : List PArg) (acc : Pattern) :
 theorem newPattern_wild (rest : List PArg) (acc : Pattern) :
     newPattern (.wild :: rest) acc = newPattern rest (match acc.reverse with
       | [] => [⟨true, []⟩]
-      | last :: _ => if last.literal.isEmpty then acc else acc ++ [⟨true, []⟩]) := by
+      | last :: revInit => if last.literal.isEmpty then (⟨true, last.literal⟩ :: revInit).reverse else acc ++ [⟨true, []⟩]) := by
   rw [newPattern]; split
   · rename_i heq; simp only [heq]
   · rename_i heq; simp only [heq]; split <;> rfl
@@ -184,13 +203,10 @@ theorem step_ne_nil_lit (acc : Pattern) (s : List Char) :
 theorem step_ne_nil_wild (acc : Pattern) :
     (match acc.reverse with
       | [] => [(⟨true, []⟩ : PatComp)]
-      | last :: _ => if last.literal.isEmpty then acc else acc ++ [⟨true, []⟩]) ≠ [] := by
+      | last :: revInit => if last.literal.isEmpty then (⟨true, last.literal⟩ :: revInit).reverse else acc ++ [⟨true, []⟩]) ≠ [] := by
   split
   · simp
-  · rename_i last rest hr
-    split
-    · intro h; rw [h] at hr; simp at hr
-    · simp
+  · split <;> simp
 
 /-- `NewPattern` keeps the invariant, and returns a component-less pattern only for no arguments at all -/
 theorem newPattern_accOK : ∀ (args : List PArg) (acc : Pattern), AccOK acc →
